@@ -28,6 +28,7 @@ class GenOpts(object):
         self.allow_unset = True
         self.unset_bias = (12, 15)    # 1/n of union arms / struct members are left unset
         self.allow_const_refs = True
+        self.enum_aliases = True      # enumerators repeating an earlier value (legal in the prophy language, refused by isar)
         self.chain_focus = 0          # 1/n of schemas end with typedef -> struct/union -> enumerator-sized array chains
         self.tail_focus = 0           # 1/n of schemas end with a (struct ending in greedy, struct ending in that struct) pair
         self.const_ref_bias = 6      # 1/n of sizes / discriminators refer to a constant when one fits
@@ -179,6 +180,10 @@ class _Builder(object):
                     members.append([en, ne[0], ne[1]])
                     continue
             members.append([en, v, hex(v) if self.draw(st.integers(0, 3)) == 0 else str(v)])
+        if self.o.enum_aliases and len(members) < 5 and self.draw(st.integers(0, 5)) == 0:
+            # an alias: the language lets an enumerator repeat the value of an earlier one
+            src = self.draw(st.sampled_from(members))
+            members.append(['%s_%s' % (name, 'abcde'[len(members)]), src[1], str(src[1])])     # by value: isar cannot name a sibling
         for en, v, _ in members:
             self.disc_consts.append((en, v))
             if 1 <= v <= 6:
